@@ -3,6 +3,7 @@
 package c20
 
 import (
+	"errors"
 	"bytes"
 	"context"
 	"encoding/json"
@@ -83,6 +84,20 @@ type rogueObs struct {
 
 const failureMsg = "target daemon is not registered (scripted failure)"
 
+func isFailure(reply string) bool { return strings.HasPrefix(reply, "failure") }
+
+// endedByFailure: Dial's error is the broker's failure. With a message, the message is in it; a failure reply
+// that explains nothing still ends the attempt, so the error is at least not the dial's own time limit.
+func endedByFailure(err error, reply string) bool {
+	if err == nil {
+		return false
+	}
+	if reply == "failure" {
+		return strings.Contains(err.Error(), failureMsg)
+	}
+	return !errors.Is(err, context.DeadlineExceeded) && !strings.Contains(err.Error(), "deadline exceeded") && !strings.Contains(err.Error(), "timed out")
+}
+
 func brokerConfig() *security.SecurityConfig {
 	c := kit.BaseConfig(security.SecurityOptional, security.SecurityOptional, security.AuthClaimToBe)
 	c.SessionCache = nil
@@ -144,6 +159,15 @@ func (b *broker) serve(wg *sync.WaitGroup) {
 			ad := classad.New()
 			_ = ad.Set("Result", false)
 			_ = ad.Set("ErrorString", failureMsg)
+			sendAd(ad)
+		case "failure-bare": // a failure with no explanation attached
+			ad := classad.New()
+			_ = ad.Set("Result", false)
+			sendAd(ad)
+		case "failure-empty":
+			ad := classad.New()
+			_ = ad.Set("Result", false)
+			_ = ad.Set("ErrorString", "")
 			sendAd(ad)
 		case "garbage":
 			_, _ = conn.Write([]byte{1, 0, 0, 0, 6, 'g', 'a', 'r', 'b', 'g', 'e'})
@@ -497,14 +521,14 @@ func judge(c Case, o dialOutcome, brokers []*broker) (string, bool) {
 		}
 		b.mu.Unlock()
 	}
-	if len(c.Brokers) == 1 && c.Proxy == "" && !c.Nested && !c.Brokers[0].Down && c.Brokers[0].Reply == "failure" && !hasLegit(c.Brokers[0]) {
+	if len(c.Brokers) == 1 && c.Proxy == "" && !c.Nested && !c.Brokers[0].Down && isFailure(c.Brokers[0].Reply) && !hasLegit(c.Brokers[0]) {
 		replied := false
 		for _, e := range c.Brokers[0].Order {
 			if e == -1 {
 				replied = true
 			}
 		}
-		if replied && (o.err == nil || !strings.Contains(o.err.Error(), failureMsg)) && !silent {
+		if replied && !endedByFailure(o.err, c.Brokers[0].Reply) && !silent {
 			return fmt.Sprintf("the only broker reported a failure but Dial returned err=%v", o.err), rogueFirst
 		}
 	}
@@ -519,11 +543,17 @@ func judge(c Case, o dialOutcome, brokers []*broker) (string, bool) {
 					replied = true
 				}
 			}
-			if b.Down || b.Reply != "failure" || !replied || hasLegit(b) {
+			if b.Down || !isFailure(b.Reply) || !replied || hasLegit(b) {
 				allFail = false
 			}
 		}
-		if allFail && (o.err == nil || !strings.Contains(o.err.Error(), failureMsg)) {
+		worst := "failure" // the message is demanded only when every broker gave it
+		for _, b := range c.Brokers {
+			if b.Reply != "failure" {
+				worst = "failure-bare"
+			}
+		}
+		if allFail && !endedByFailure(o.err, worst) {
 			return fmt.Sprintf("all %d brokers reported a failure but Dial returned err=%v after %v", len(c.Brokers), o.err, o.elapsed.Round(time.Millisecond)), rogueFirst
 		}
 	}
@@ -534,7 +564,7 @@ func judge(c Case, o dialOutcome, brokers []*broker) (string, bool) {
 		return "proxied mode: a hello with a wrong/missing/empty/guessable id was accepted", rogueFirst
 	}
 	// non-vacuity: a lone legit arrival with no silent rogue in front must be returned
-	if anyLegit && o.conn == nil && !silent && len(c.Brokers) == 1 && c.Brokers[0].Reply != "failure" && c.Brokers[0].Reply != "garbage" {
+	if anyLegit && o.conn == nil && !silent && len(c.Brokers) == 1 && !isFailure(c.Brokers[0].Reply) && c.Brokers[0].Reply != "garbage" {
 		return fmt.Sprintf("non-vacuity: the legitimate connection was made but Dial failed: %v", o.err), rogueFirst
 	}
 	return "", rogueFirst
@@ -621,7 +651,7 @@ func genBroker(t *rapid.T) BrokerScript {
 			pending = append(pending, e+1)
 		}
 	}
-	bs.Reply = rapid.SampledFrom([]string{"success", "success", "failure", "none", "garbage"}).Draw(t, "reply")
+	bs.Reply = rapid.SampledFrom([]string{"success", "success", "failure", "failure-bare", "failure-empty", "none", "garbage"}).Draw(t, "reply")
 	bs.Down = rapid.IntRange(0, 9).Draw(t, "down") == 0
 	return bs
 }
@@ -670,7 +700,7 @@ func TestC20Permutations(t *testing.T) {
 	for _, rk := range rogueKinds {
 		for _, legitFirst := range []bool{true, false} {
 			for oi, ord := range orders {
-				for _, reply := range []string{"success", "none", "failure"} {
+				for _, reply := range []string{"success", "none", "failure", "failure-bare"} {
 					n++
 					if !kit.Thorough() && (oi+n)%2 == 0 {
 						continue
@@ -691,7 +721,7 @@ func TestC20Permutations(t *testing.T) {
 		}
 	}
 	for _, rk := range rogueKinds { // no legit at all
-		for _, reply := range []string{"success", "failure", "none", "garbage"} {
+		for _, reply := range []string{"success", "failure", "failure-bare", "failure-empty", "none", "garbage"} {
 			cases = append(cases, Case{Brokers: []BrokerScript{{Arrivals: []Arrival{{rk}, {rk}}, Order: []int{0, 2, 1, -1, 3}, Reply: reply}}})
 			classes = append(classes, "perm:no-legit")
 		}
@@ -709,11 +739,14 @@ func TestC20Permutations(t *testing.T) {
 	for _, stg := range []int{0, 1, -1} { // two and three brokers, all reporting failure
 		for nb := 2; nb <= 3; nb++ {
 			var bs []BrokerScript
-			for i := 0; i < nb; i++ {
-				bs = append(bs, BrokerScript{Order: []int{-1}, Reply: "failure"})
+			for _, reply := range []string{"failure", "failure-bare", "failure-empty"} {
+				bs = nil
+				for i := 0; i < nb; i++ {
+					bs = append(bs, BrokerScript{Order: []int{-1}, Reply: reply})
+				}
+				cases = append(cases, Case{Stagger: stg, Brokers: bs})
+				classes = append(classes, "all-brokers-fail")
 			}
-			cases = append(cases, Case{Stagger: stg, Brokers: bs})
-			classes = append(classes, "all-brokers-fail")
 		}
 	}
 	// two brokers: the rogue at A presents B's id; staggers
